@@ -9,6 +9,7 @@ var checks = map[string]func(*Ctx){
 	"C01": runC01,
 	"C02": runC02,
 	"C03": runC03,
+	"C04": runC04,
 	"C05": runC05,
 	"C06": runC06,
 	"C08": runC08,
